@@ -366,6 +366,7 @@ func main() {
 	r.Bound("site_occurrence_cap", siteCap)
 	r.Assume("a (thread, static site) pair is a preemption candidate only the first site_occurrence_cap times it is reached; forced switches (block, end) are always decisions")
 	r.Assume("scheduling points: vsync lock operations + statements mentioning package-level variables that are written outside init (syntactic; tools/instrument); unsynchronised accesses the points miss are the business of the separate free-running -race pass")
+	r.Assume("cold scenarios run every schedule in a fresh process and are therefore explored with preemption bound 1 in both tiers (a second schedule in the same process would no longer start from the cold state)")
 	r.Assume("calls in one scenario are chosen so that their sequential results do not depend on their order; the reference is each call run alone in the same (warm) or a fresh (cold) process")
 
 	scs := scenarios(r.Thorough())
@@ -467,7 +468,7 @@ func main() {
 			}
 			if cost <= bound {
 				for alt := 1; alt < len(d.Enabled); alt++ {
-					jobs = append(jobs, Job{Scenario: sc, Prefix: append(append([]int{}, choices[:i]...), alt), Bound: bound, SiteCap: siteCap, Single: sc.Cold && bound <= 1})
+					jobs = append(jobs, Job{Scenario: sc, Prefix: append(append([]int{}, choices[:i]...), alt), Bound: bound, SiteCap: siteCap, Single: sc.Cold})
 				}
 			}
 			if d.RunningEnabled && d.Chosen != 0 {
